@@ -14,14 +14,17 @@ def run(tier, seed, prop='C04'):
                        'simulators (unbounded horizon, gamma>0).')
     # discrete-time simulators: rows t[j] = tmin + j <= tmax, counts >= 0 summing to N (S non-increasing, R non-decreasing for SIR)
     from . import C12
-    rep.add_unit_results(util.run_jobs(util.jobs_for(C12.reg, tier=tier, quals={'discrete_SIR', 'basic_discrete_SIS'})))
+    # fast_nonMarkov_SIS: handler, queue-rule lemma (rows are part of the global invariant GI_NM) and the driver (rows, row 0, argument errors)
+    from . import C13
+    rep.add_unit_results(util.run_jobs(util.jobs_for(C12.reg, tier=tier, quals={'discrete_SIR', 'basic_discrete_SIS'})
+                                       + util.jobs_for(C13.reg_nm, tier=tier, quals={'_process_trans_SIS_nonMarkov_', 'event_step_nmSIS', 'fast_nonMarkov_SIS'})))
     from ..replay import sim_native
     rep.bounded_is_supplementary = True
     rep.add(util.native_ob('native:rows-well-formed:all-simulators', 'EoN/simulation.py:(all simulators)', sim_native.c04_native,
                            'one 7-node graph with an isolated node, 3 (tmin, tmax) combinations, weighted / unweighted, rate 0, fixed delays tying with tmax, 4 seeds, every simulator incl. the discrete and generic ones'))
     r = util.native_replayer
     rep.not_covered += [
-        'fast_nonMarkov_SIS, Gillespie_simple_contagion: row invariant not under contract (only the bounded native stand-in); discrete_SIR and basic_discrete_SIS: row invariants under contract in C12; Gillespie_complex_contagion: see C15',
+        'Gillespie_simple_contagion: row invariant not under contract (only the bounded native stand-in); fast_nonMarkov_SIS: rows are part of the global invariant GI_NM (queue-rule lemma event_step_nmSIS) and of the driver\'s postcondition, verified here as in C13; discrete_SIR and basic_discrete_SIS: row invariants under contract in C12; Gillespie_complex_contagion: see C15',
         'fast_nonMarkov_SIR: "unbounded horizon ends with no infected node" needs "every infectious node has a pending recovery", which is not part of the proved global invariant',
         'termination',
     ]
